@@ -240,6 +240,16 @@ def run(tier, seed):
         st.runs += n
         for kind, label, detail, t2, text in out:
             failures.append(Failure("C12", f"{kind}:{label}", detail[:300], {"kind": "seq", "text": t2, "base": text}))
+    # `##` (two adjacent hashes, the pasting operator of a macro body): `%:%:` is its digraph in C, so here the glued
+    # respelling is itself a punctuator spelling and must give the same two HASH tokens
+    for ctx in ("{}", "a{}b", "#define CAT(a, b) a {} b\n", "a {}b", "x{} y"):
+        base, _ = toks(ctx.format("##"))
+        for sp in ("%:%:", "??=??=", "%:#", "#%:", "??=#", "#??=", "%:??=", "??=%:"):
+            got, exc = toks(ctx.format(sp))
+            st.runs += 1
+            if got != base:
+                failures.append(Failure("C12", f"tokens:hash-hash:{sp}", f"{ctx.format('##')!r} -> {ctx.format(sp)!r}: {got} vs {base}",
+                                        {"kind": "seq", "text": ctx.format(sp), "base": ctx.format("##")}))
     st.bump("punctuator_sequences", sum(len(PUNCT) ** k for k in range(1, L + 1)))
     st.states = len(tasks) + sum(len(PUNCT) ** k for k in range(1, L + 1))
     st.transitions = st.runs
